@@ -72,8 +72,11 @@ CTX_N = {
     "hprint": "10 HPRINT ( 1 , 2 ) , {e}", "second-stmt": "10 W = 1 : Z = {e}", "after-rem": "10 REM X\n20 Z = {e}",
     "jump-target": "10 GOTO 30\n20 W = 5\n30 Z = {e}", "gosub-target": "10 GOSUB 30\n20 END\n30 Z = {e} : RETURN",
     "loop-body": "10 FOR I = 1 TO 2 : Z = Z + {e} : NEXT I", "if-target": "10 IF Y = 1 THEN 30\n20 W = 5\n30 Z = {e}",
+    # the target is also an operand of the call; READ targets while an empty DATA item is present (filter path)
+    "assign-self": "10 X = {e}", "assign-self-y": "10 Y = {e}", "read-sub-empty": "10 READ Q ( {e} )\n20 DATA 5 , , 7",
+    "read-sub-empty2": "10 READ W , Q ( {e} )\n20 DATA , 5",
 }
-CTX_S = {"assign": "10 Z$ = {e}", "if": '10 IF {e} = "A" THEN 20\n20 END', "ifelse": '10 IF {e} = "A" THEN Z = 1 ELSE Z = 2', "print": "10 PRINT {e}",
+CTX_S = {"assign-self": "10 X$ = {e}", "assign": "10 Z$ = {e}", "if": '10 IF {e} = "A" THEN 20\n20 END', "ifelse": '10 IF {e} = "A" THEN Z = 1 ELSE Z = 2', "print": "10 PRINT {e}",
          "play": "10 PLAY {e}", "hprint": "10 HPRINT ( 1 , 2 ) , {e}", "hdraw": "10 HDRAW {e}", "sassign-sub": "10 R$ ( JOYSTK ( 0 ) ) = {e}",
          "jump-target": "10 GOTO 30\n20 W = 5\n30 Z$ = {e}"}
 
